@@ -34,8 +34,8 @@ func (*c08) Rule() string {
 
 func (k *c08) Setup(c *core.Ctx) (int, error) {
 	k.perCase = 25
-	k.libCases = c.N(5000, 200000) / k.perCase
-	k.cliCases = c.N(300, 4000)
+	k.libCases = c.N(20000, 400000) / k.perCase
+	k.cliCases = c.N(800, 8000)
 	return k.libCases + k.cliCases, nil
 }
 
